@@ -8,7 +8,7 @@ from ..core import Undecided, attr_chain, norm, short, walk_no_nested, call_meth
 from ..paths import enumerate_paths, Path
 from ..consteval import fold_expr
 from ..report import RuleCtx
-from .c02_model import NodeModel, MPARSER, VISITOR, PRINTER, params_of, unroll_tables, inline_self_calls
+from .c02_model import NodeModel, MPARSER, VISITOR, PRINTER, params_of, unroll_tables, inline_self_calls, desugar_with, emission, chunk_buffers
 
 # Reference (DESIGN A.5, read from Parser.args/key_values): in an argument list every positional argument is followed by its
 # comma; then every keyword entry is key, colon, value followed by its comma.  All other classes: declaration (= textual) order.
@@ -71,6 +71,12 @@ def _inlined(vis: 'Visitors', fn: ast.FunctionDef) -> ast.FunctionDef:
     def lookup(name: str) -> T.Optional[ast.FunctionDef]:
         r = vis.resolve(name)
         return r[2] if r else None
+    def klass(name: str) -> T.Optional[ast.ClassDef]:
+        for m in (vis.pm, vis.vm):
+            if m.has_cls(name):
+                return m.cls(name)
+        return None
+    fn = desugar_with(fn, lookup, klass)     # `with self._entered(node): ...` -> enter statements; body; exit statements
     return inline_self_calls(fn, lookup, lambda n: n in ('enter_node', 'exit_node') or n.startswith('visit_'))
 
 
@@ -354,6 +360,7 @@ def check_terminals(ctx: RuleCtx, model: NodeModel, bool_map: T.Dict[str, T.Any]
     vis = Visitors(ctx.repo)
     built = constructed_classes(model)
     fixed_ok = 0
+    bufs = chunk_buffers(vis.pm.cls('RawPrinter'))
     n = 0
     for cls in sorted(built):
         if model.node_fields(cls):
@@ -375,12 +382,13 @@ def check_terminals(ctx: RuleCtx, model: NodeModel, bool_map: T.Dict[str, T.Any]
                 continue
             adds0: T.List[T.Any] = []
             for st in p.stmts():
-                if isinstance(st, ast.AugAssign) and attr_chain(st.target) == 'self.result' and isinstance(st.op, ast.Add):
-                    adds0 += _parts(st.value, node, defs)
-                elif isinstance(st, ast.Assign) and attr_chain(st.targets[0]) == 'self.result' and isinstance(st.value, ast.BinOp) \
-                        and isinstance(st.value.op, ast.Add) and norm(st.value.left) == 'self.result':
-                    adds0 += _parts(st.value.right, node, defs)
-                elif isinstance(st, (ast.Assign, ast.AugAssign)) and 'self.result' in norm(st):
+                em = emission(st, bufs)
+                if em is not None:
+                    for x in em:
+                        adds0 += _parts(x, node, defs)
+                elif isinstance(st, (ast.Assign, ast.AugAssign)) and ('self.result' in norm(st) or any(f'self.{b_}' in norm(st) for b_ in bufs)):
+                    raise Undecided(f'{qn}: `{short(st)}`')
+                elif isinstance(st, ast.Expr) and isinstance(st.value, ast.Call) and any(f'self.{b_}.' in norm(st.value.func) for b_ in bufs):
                     raise Undecided(f'{qn}: `{short(st)}`')
             cm0 = {k.replace(node + '.', 'node.'): v for k, v in p.cond_map().items() if k.startswith(node + '.')}
             # a conditional piece of text is a branch on its test: split the path (both truth values unless the path decides it)
